@@ -233,50 +233,101 @@ func alinQ(b []byte) []alphabet.QLetter {
 	return ql
 }
 
+// alinWarmSeq makes a sequence object hold, in place, what the warm-up call is to see
+// (c08_history.go: the case's letters, their first half, or all of the stretched backing
+// array) and returns the function that restores the case's slice.
+func alinWarmSeq(s align.AlphabetSlicer, seqs int) (restore func()) {
+	switch s := s.(type) {
+	case *linear.Seq:
+		own := s.Seq
+		s.Seq = own[:alnWarmLen(seqs, len(own), cap(own))]
+		return func() { s.Seq = own }
+	case *linear.QSeq:
+		own := s.Seq
+		s.Seq = own[:alnWarmLen(seqs, len(own), cap(own))]
+		return func() { s.Seq = own }
+	}
+	return func() {}
+}
+
 func alinExec(input string) string {
 	f := hx.Fields(input)
 	if len(f) != 6 {
 		panic("alin: bad input " + input)
 	}
 	op, atok, mode := f[0], f[1], f[5]
-	al := alinAligner(op, alinMatrix(f[2]))
+	want := alinMatrix(f[2])
 	rb, qb := hx.Unhex(f[3]), hx.Unhex(f[4])
 	alpha := alinAlpha(atok, false)
+	// every sequence object holds the first len(b) letters of a longer backing array
+	// (alnStretched): the case's letters; only a warm-up call ever sees the rest
 	lseq := func(b []byte, a alphabet.Alphabet) *linear.Seq {
-		return linear.NewSeq("s", alphabet.BytesToLetters(b), a)
+		s := linear.NewSeq("s", nil, a)
+		s.Seq = alphabet.Letters(alphabet.BytesToLetters(alnStretched(b)))[:len(b)]
+		return s
 	}
 	qseq := func(b []byte, a alphabet.Alphabet) *linear.QSeq {
-		return linear.NewQSeq("s", alinQ(b), a, alphabet.Sanger)
+		s := linear.NewQSeq("s", nil, a, alphabet.Sanger)
+		s.Seq = alphabet.QLetters(alinQ(alnStretched(b)))[:len(b)]
+		return s
 	}
+	// the sequence objects of the case: r, q for the first (only) call, r2, q2 for the
+	// QLetters call of mode LL
+	var r, q, r2, q2 align.AlphabetSlicer
 	switch mode {
 	case "LL":
-		rl, ql := lseq(rb, alpha), lseq(qb, alpha)
-		resL, psL := alinRun(al, rl, ql)
-		rq, qq := qseq(rb, alpha), qseq(qb, alpha)
-		resQ, psQ := alinRun(al, rq, qq)
-		fmtL := alinFormat(rl, ql, psL, alpha.Gap())
-		fmtQ := alinFormat(rq, qq, psQ, alpha.Gap())
-		if resQ == resL {
-			resQ = "="
-		}
-		if fmtQ == fmtL {
-			fmtQ = "="
-		}
-		return resL + " " + resQ + " " + fmtL + " " + fmtQ
+		r, q, r2, q2 = lseq(rb, alpha), lseq(qb, alpha), qseq(rb, alpha), qseq(qb, alpha)
 	case "LQ":
-		res, _ := alinRun(al, lseq(rb, alpha), qseq(qb, alpha))
-		return res
+		r, q = lseq(rb, alpha), qseq(qb, alpha)
 	case "QL":
-		res, _ := alinRun(al, qseq(rb, alpha), lseq(qb, alpha))
-		return res
+		r, q = qseq(rb, alpha), lseq(qb, alpha)
 	case "A2":
-		res, _ := alinRun(al, lseq(rb, alpha), lseq(qb, alinAlpha(atok, true)))
-		return res
+		r, q = lseq(rb, alpha), lseq(qb, alinAlpha(atok, true))
 	case "NA":
-		res, _ := alinRun(al, lseq(rb, nil), lseq(qb, alpha))
+		r, q = lseq(rb, nil), lseq(qb, alpha)
+	default:
+		panic("alin: bad mode " + mode)
+	}
+	// Usage history (c08_history.go): half of the cases first make a warm-up call with the same
+	// matrix object holding other numbers, the same aligner value and the same sequence
+	// objects, then overwrite the matrix in place with the case's; the property is per call,
+	// so the observation must not depend on it.
+	var al align.Aligner
+	if hist := alnHistoryOf(input); hist.warm {
+		obj := newAlnMatrixObject(want, hist.shape)
+		al = alinAligner(op, obj.warmup())
+		wr, wq := r, q
+		if hist.useQ && r2 != nil {
+			wr, wq = r2, q2
+		}
+		rr, rq := alinWarmSeq(wr, hist.seqs), alinWarmSeq(wq, hist.seqs)
+		alnQuiet(func() { al.Align(wr, wq) })
+		rr()
+		rq()
+		m := obj.settle()
+		if hist.shape != 0 || len(want) == 0 {
+			// another number of rows: the aligner value IS the slice header, so it is re-made
+			// around the same backing arrays; for shape 0 the same aligner value is re-used
+			al = alinAligner(op, m)
+		}
+	} else {
+		al = alinAligner(op, want)
+	}
+	if mode != "LL" {
+		res, _ := alinRun(al, r, q)
 		return res
 	}
-	panic("alin: bad mode " + mode)
+	resL, psL := alinRun(al, r, q)
+	resQ, psQ := alinRun(al, r2, q2)
+	fmtL := alinFormat(r.(seq.Slicer), q.(seq.Slicer), psL, alpha.Gap())
+	fmtQ := alinFormat(r2.(seq.Slicer), q2.(seq.Slicer), psQ, alpha.Gap())
+	if resQ == resL {
+		resQ = "="
+	}
+	if fmtQ == fmtL {
+		fmtQ = "="
+	}
+	return resL + " " + resQ + " " + fmtL + " " + fmtQ
 }
 
 // ---- generators ---------------------------------------------------------------------
